@@ -49,6 +49,14 @@ Use(n) == /\ Go /\ "use" \in Templates /\ n \in Defined
           /\ Line(<<K("print! "), T(n, glob[n])>>) /\ UNCHANGED <<glob, funs, nb>>
 StrLit(n) == /\ Go /\ "strlit" \in Templates /\ n \in Defined
              /\ Line(<<K("print! \""), K(n), K(" "), K(n), K("\", "), T(n, glob[n])>>) /\ UNCHANGED <<glob, funs, nb>>
+\* print! "U+E9 g", g      -- a non-ASCII character to the left of the reference on the same line
+StrLitU(n) == /\ Go /\ "strlitu" \in Templates /\ n \in Defined
+              /\ Line(<<K("print! \"cafU+E9 U+3042 "), K(n), K("\", "), T(n, glob[n])>>) /\ UNCHANGED <<glob, funs, nb>>
+\* c = [i + 1 | i <- 1..3 | i <= g]      -- a comprehension variable with a guard that refers to a global
+Compr(g) == /\ Go /\ "compr" \in Templates /\ g \in Defined
+            /\ Line(<<T("c" \o ToString(N + 1), nb + 1), K(" = ["), T("i", nb + 2), K(" + 1 | "), T("i", nb + 2), K(" <- 1..3 | "), T("i", nb + 2),
+                      K(" <= "), T(g, glob[g]), K("]")>>)
+            /\ nb' = nb + 2 /\ UNCHANGED <<glob, funs>>
 \* f a = a + g     (a fresh parameter name "a"; g a global)
 FClose(g) == /\ Go /\ "fclose" \in Templates /\ g \in Defined
              /\ Line(<<T(FName(N + 1), nb + 1), K(" "), T("a", nb + 2), K(" = "), T("a", nb + 2), K(" + "), T(g, glob[g])>>)
@@ -71,10 +79,10 @@ Call(i, g) == /\ Go /\ "call" \in Templates /\ i \in 1..Len(funs) /\ g \in Defin
               /\ Line(<<T("r" \o ToString(N + 1), nb + 1), K(" = "), T(funs[i].name, funs[i].b), K(" "), T(g, glob[g])>>)
               /\ nb' = nb + 1 /\ UNCHANGED <<glob, funs>>
 UseR == /\ Go /\ "user" \in Templates /\ N >= 1 /\ Len(prog[N]) >= 1 /\ prog[N][1].b # 0
-        /\ \E c \in {"r", "l"} : SubSeq(prog[N][1].s, 1, 1) = c
+        /\ \E c \in {"r", "l", "c"} : SubSeq(prog[N][1].s, 1, 1) = c
         /\ Line(<<K("print! "), prog[N][1]>>) /\ UNCHANGED <<glob, funs, nb>>
 
-Next == \/ \E n \in Names : Def(n) \/ Use(n) \/ StrLit(n) \/ FClose(n) \/ FShadow(n) \/ FDef(n)
+Next == \/ \E n \in Names : Def(n) \/ Use(n) \/ StrLit(n) \/ StrLitU(n) \/ Compr(n) \/ FClose(n) \/ FShadow(n) \/ FDef(n)
         \/ \E p, g \in Names : Lam(p, g)
         \/ \E i \in 1..Len(funs), g \in Names : Call(i, g)
         \/ UseR
